@@ -143,7 +143,10 @@ def path_cases(tier, rng):
 def queries(case, rng):
     ts = gen.times_of(case["ops"]) or [0]
     lo, hi = min(ts), max(ts)
-    nodes = sorted({x for op in case["ops"] if op[0] == "add" for x in (op[1], op[2])}) or [1]
+    ops = case["ops"]
+    if any(op[0] == "clear" for op in ops):      # roots are nodes of the graph as it is when the query runs
+        ops = ops[max(i for i, op in enumerate(ops) if op[0] == "clear") + 1:]
+    nodes = sorted({x for op in ops if op[0] == "add" for x in (op[1], op[2])}) or [1]
     qs = []
     for _ in range(3):
         u = rng.choice(nodes)
